@@ -1238,6 +1238,96 @@ def op_txt_fields(scn):
     return out
 
 
+
+def _build_rt_object(c, scn, G):
+    kind = scn["kind"]
+    if kind == "graph":
+        return True, G
+    if kind == "divisor":
+        return True, c.divisor(G, scn["deg"])
+    if kind == "orientation":
+        return call(CFOrientation, G, [(c.name(a), c.name(b)) for a, b in scn.get("orient", [])])
+    return call(CFiringScript, G, {c.name(i): k for i, k in scn.get("script", [])})
+
+
+@op("txt_write")
+def op_txt_write(scn):
+    """the text `to_txt` writes, character by character (no newline translation on reading it)"""
+    import tempfile
+    from chipfiring.CFDataProcessor import CFDataProcessor
+    c = Ctx(scn)
+    ok, G = call(c.graph, scn)
+    if not ok:
+        return "ERR"
+    ok, obj = _build_rt_object(c, scn, G)
+    if not ok:
+        return "ERR"
+    with tempfile.TemporaryDirectory() as td:
+        path = os.path.join(td, "o.txt")
+        ok, _ = call(CFDataProcessor().to_txt, obj, path)
+        try:
+            with open(path, newline="") as f:
+                text = f.read()
+        except Exception as e:
+            text = {"unreadable": type(e).__name__}
+    return {"text": text if ok else "ERR"}
+
+
+@op("txt_read")
+def op_txt_read(scn):
+    """what `read_txt` hands to the constructors for the given text: the constructors are replaced,
+    inside the data-processor module only, by recorders that note their arguments and then call the
+    real class"""
+    import tempfile
+    import importlib
+    DP = importlib.import_module("chipfiring.CFDataProcessor")
+    kind = scn["kind"]
+    tname = {"graph": "graph", "divisor": "divisor", "orientation": "orientation", "script": "firingscript"}[kind]
+    seen = {}
+    real = {k: getattr(DP, k) for k in ("CFGraph", "CFDivisor", "CFOrientation", "CFiringScript")}
+
+    def spy(key):
+        # records the arguments and returns a token: the parse is what is compared here, the
+        # constructors are compared on their own (graph_hist / div_hist / rt scenarios)
+        def f(*a, **k):
+            seen.setdefault(key, []).append((a, k))
+            return ("token", key)
+        return f
+    out = {}
+    with tempfile.TemporaryDirectory() as td:
+        path = os.path.join(td, "in.txt")
+        with open(path, "w", newline="") as f:
+            f.write(scn["text"])
+        try:
+            for k in real:
+                setattr(DP, k, spy(k))
+            ok, res = call(DP.CFDataProcessor().read_txt, path, tname)
+        finally:
+            for k, v in real.items():
+                setattr(DP, k, v)
+    out["_raised"] = not ok
+    out["_returned"] = "NONE" if res is None else type(res).__name__
+    g = seen.get("CFGraph")
+    if not g:
+        out["parsed"] = "NONE"
+        return out
+    (a, k) = g[-1]
+    names, edges = a[0], (a[1] if len(a) > 1 else k.get("edges", []))
+    parsed = {"names": sorted(names), "edges": [[e[0], e[1], e[2]] for e in edges]}
+    second = {"divisor": "CFDivisor", "orientation": "CFOrientation", "script": "CFiringScript"}.get(kind)
+    if second:
+        r = seen.get(second)
+        if r:
+            arg = r[-1][0][1]
+            if isinstance(arg, dict):
+                parsed["recs"] = [[kk, vv] for kk, vv in arg.items()]
+            else:
+                parsed["recs"] = [list(t) for t in arg]
+        else:
+            parsed["recs"] = "<second constructor not reached>"
+    out["parsed"] = parsed
+    return out
+
 @op("bounds")
 def op_bounds(scn):
     from chipfiring import CFCombinatorics as CC
